@@ -1,12 +1,289 @@
-// Package c14 checks property C14 (not built yet).
+// Package c14 checks property C14: observing the IR (printing, Type, Ident,
+// Operands, Succs) never changes it.
+//
+// (S) spec/IRState.tla is checked by TLC: with ValidateOnPrint = FALSE (what the
+// property requires of printing) ObserverTransparent and PrintTwiceSame hold on
+// every reachable state; with TRUE (the code as implemented) TLC reports the
+// print-edit-print counterexample.
+// (G) every transition TLC explores (a history prefix plus the next call) is
+// written out by the ACTION_CONSTRAINT Emit and replayed twice into the real ir
+// API -- with and without its observer calls; the final Module.String() (or the
+// class of its panic) must agree, and printing once more must give the same.
 package c14
 
 import (
+	"fmt"
+	"os"
+	"path/filepath"
+	"sort"
+	"strings"
+	"time"
+
 	"verif/harness/mbt"
+	"verif/harness/props/irhist"
 	"verif/harness/props/reg"
 )
 
 func init() { reg.Register("C14", Run) }
 
+const (
+	sigLocal  = "C14|print-edit-print|panic|cached local ID validated against position"
+	sigGlobal = "C14|print-edit-print|panic|cached global ID validated against position"
+)
+
+// observersBeforeMutator lists the observer ops of h that are followed by a mutator.
+func observersBeforeMutator(h []irhist.Call) []string {
+	lastMut := -1
+	for i, c := range h {
+		if !irhist.IsObserver(c.Op) {
+			lastMut = i
+		}
+	}
+	set := map[string]bool{}
+	for i, c := range h {
+		if i < lastMut && irhist.IsObserver(c.Op) {
+			set[c.Op] = true
+		}
+	}
+	var out []string
+	for k := range set {
+		out = append(out, k)
+	}
+	sort.Strings(out)
+	return out
+}
+
+func allObservers(h []irhist.Call) []string {
+	set := map[string]bool{}
+	for _, c := range h {
+		if irhist.IsObserver(c.Op) {
+			set[c.Op] = true
+		}
+	}
+	var out []string
+	for k := range set {
+		out = append(out, k)
+	}
+	sort.Strings(out)
+	return out
+}
+
+// signature classifies a with/without difference.
+func signature(h []irhist.Call, with, without irhist.Result) string {
+	switch {
+	case with.EarlyMsg != "" || without.EarlyMsg != "":
+		m := with.EarlyMsg
+		if m == "" {
+			m = without.EarlyMsg
+		}
+		return "C14|mutator|panic|" + irhist.PanicClass(m)
+	case with.Panicked && !without.Panicked:
+		switch irhist.PanicClass(with.Msg) {
+		case "invalid local ID":
+			return sigLocal
+		case "invalid global ID":
+			return sigGlobal
+		}
+		return "C14|observed history|panic|" + irhist.PanicClass(with.Msg)
+	case !with.Panicked && without.Panicked:
+		return "C14|unobserved history|panic|" + irhist.PanicClass(without.Msg)
+	case with.Panicked && without.Panicked && irhist.PanicClass(with.Msg) == "invalid local ID":
+		return sigLocal
+	case with.Panicked && without.Panicked && irhist.PanicClass(with.Msg) == "invalid global ID":
+		return sigGlobal
+	case with.Panicked && without.Panicked:
+		return "C14|observed history|panic class differs|" + irhist.PanicClass(with.Msg) + " vs " + irhist.PanicClass(without.Msg)
+	}
+	return "C14|observed history|text differs|observers " + strings.Join(allObservers(h), "+")
+}
+
+type stats struct {
+	transitions, withObs, nontrivial, divergences, obsPanics int
+	known                                                    map[string]int
+}
+
+// judge replays one transition and reports failures.
+func judge(rep *mbt.Report, tr irhist.Transition, st *stats, source string) {
+	h := tr.Hist
+	key := irhist.Key(h)
+	pre := observersBeforeMutator(h)
+	st.transitions++
+	if len(allObservers(h)) > 0 {
+		st.withObs++
+	}
+	if len(pre) > 0 {
+		st.nontrivial++
+	}
+	rep.Count(key, len(pre) > 0)
+	with := irhist.Replay(h, true)
+	without := irhist.Replay(h, false)
+	st.obsPanics += with.ObsPanics
+	c := map[string]interface{}{"hist": h, "want": tr.Want, "source": source}
+	if !irhist.SameOutcome(with, without) {
+		rep.Fail(mbt.Failure{Signature: signature(h, with, without),
+			What: fmt.Sprintf("history %s: with observers -> %s; without observers -> %s", key, with.Outcome(), without.Outcome()),
+			Case: c})
+	}
+	// printing twice in a row yields identical text
+	if with.EarlyMsg == "" {
+		again := irhist.Result{Text: with.AgainText, Panicked: with.AgainPanicked, Msg: with.AgainMsg}
+		if !irhist.SameOutcome(with, again) {
+			rep.Fail(mbt.Failure{Signature: "C14|print twice|" + map[bool]string{true: "panic", false: "text differs"}[with.Panicked != again.Panicked] + "|second print after " + lastOp(h),
+				What: fmt.Sprintf("history %s: first print -> %s; second print -> %s", key, with.Outcome(), again.Outcome()),
+				Case: c})
+		}
+	}
+	// conformance of the generator: the unobserved history prints what the specification requires
+	// (a divergence is C08's subject -- it is counted here, judged there)
+	if without.EarlyMsg == "" {
+		if without.Panicked == tr.Want.Ok || (!without.Panicked && !irhist.SameToks(irhist.DefTokens(without.Text), tr.Want.Text)) {
+			st.divergences++
+			if os.Getenv("VERIF_DEBUG") != "" && st.divergences <= 12 {
+				fmt.Printf("DIVERGENCE %s\n  want ok=%v %s\n  got  %s\n", key, tr.Want.Ok, irhist.FmtToks(tr.Want.Text), without.Outcome())
+			}
+		}
+	}
+	if st.transitions%9973 == 1 {
+		rep.Sample(map[string]interface{}{"hist": key, "want_ok": tr.Want.Ok, "want_text": irhist.FmtToks(tr.Want.Text),
+			"with_observers": with.Outcome(), "without_observers": without.Outcome()})
+	}
+}
+
+func lastOp(h []irhist.Call) string {
+	if len(h) == 0 {
+		return "nothing"
+	}
+	return h[len(h)-1].Op
+}
+
+// emitRun runs the transition generator with the given constants and judges every transition.
+func emitRun(rep *mbt.Report, label string, consts map[string]string, st *stats, timeout time.Duration) {
+	consts["ValidateOnPrint"] = "FALSE"
+	t := mbt.MustTLC(mbt.TLCOpts{Spec: "IRState", Cfg: "IRStateEmit.cfg", Consts: consts, Workers: 1, Timeout: timeout})
+	defer t.Cleanup()
+	if len(t.Violated) > 0 {
+		mbt.Infra("IRState (%s) with ValidateOnPrint = FALSE violates %v: specification error", label, t.Violated)
+	}
+	rep.AddTLC(t)
+	trs, err := mbt.ReadNDJSON[irhist.Transition](filepath.Join(t.Dir, "transitions.ndjson"))
+	if err != nil {
+		mbt.Infra("transitions of %s: %v", label, err)
+	}
+	if int64(len(trs)) != t.Generated-1 {
+		mbt.Infra("%s: TLC generated %d states but wrote %d transitions", label, t.Generated, len(trs))
+	}
+	before := st.transitions
+	for _, tr := range trs {
+		judge(rep, tr, st, label)
+	}
+	rep.TracesValidated += st.transitions - before
+	rep.Extra["transitions_"+label] = len(trs)
+	rep.Extra["tlc_wall_s_"+label] = t.Wall.Seconds()
+	rep.Extra["tlc_states_"+label] = t.Distinct
+}
+
 // Run is the C14 check.
-func Run(tier, replay string) { mbt.Infra("check C14 is not built yet") }
+func Run(tier, replay string) {
+	rep := mbt.NewReport("C14", tier, "model_checking")
+	rep.Rule = "explored transitions of IRState (history prefix + next call) whose history has an observer call before a later mutator; each is replayed into the real ir API with and without its observer calls and the final String() outcomes are compared"
+	st := &stats{}
+	if replay != "" {
+		runReplay(rep, replay, st)
+		rep.Finish()
+	}
+
+	// (S) the code as implemented, in the model: TLC must find the counterexamples.
+	ai := mbt.MustTLC(mbt.TLCOpts{Spec: "IRState", Cfg: "IRStateAsImpl.cfg", Workers: 4, Continue: true})
+	want := map[string]bool{"ObserverTransparent": false, "ObserverTransparentStep": false, "PrintTotalOnParsed": false}
+	for _, v := range ai.Violated {
+		if _, ok := want[v]; !ok {
+			mbt.Infra("IRState as implemented violates %s, which the implemented behaviour should satisfy: specification error", v)
+		}
+		want[v] = true
+	}
+	for k, seen := range want {
+		if !seen {
+			mbt.Infra("IRState as implemented (ValidateOnPrint = TRUE) does not violate %s: the model lost the print-edit-print counterexample", k)
+		}
+	}
+	rep.Extra["as_implemented_model"] = map[string]interface{}{
+		"violated": ai.Violated, "states": ai.Distinct,
+		"ObserverTransparent_counterexamples": strings.Count(ai.Output, "Error: Invariant ObserverTransparent is violated"),
+	}
+	rep.CheckerCmds = append(rep.CheckerCmds, ai.Cmd+" (as implemented, violations expected)")
+	ai.Cleanup()
+
+	// (G) one test per explored transition of the model as required.
+	build := map[string]string{"MaxSrc": "0", "MaxCalls": "5"}
+	parse := map[string]string{"MaxSrc": "2", "MaxCalls": "3"}
+	if tier == "thorough" {
+		build["MaxCalls"] = "6"
+		parse["MaxCalls"] = "4"
+		parse["TermKinds"] = `{"ret", "invoke", "catchswitch"}`
+	}
+	emitRun(rep, "build", build, st, 25*time.Minute)
+	emitRun(rep, "parse", parse, st, 25*time.Minute)
+	// terminators and renames beyond the first alphabet, on functions only
+	wide := map[string]string{"MaxSrc": "0", "MaxCalls": "5", "MaxPerGroup": "0", "MaxParams": "0", "MaxBlocks": "1",
+		"NewNames": `{""}`, "SetNames": `{"y"}`, "InstRes": `{"value"}`,
+		"TermKinds": `{"ret", "br", "invoke", "callbr", "catchswitch"}`}
+	if tier == "thorough" {
+		wide["MaxCalls"] = "6"
+		wide["MaxParams"] = "1"
+		wide["NewNames"] = `{"", "x"}`
+	}
+	emitRun(rep, "terminators", wide, st, 25*time.Minute)
+
+	if tier == "thorough" {
+		// the object graph closed under all calls (no bound on the history), small structure
+		t := mbt.MustTLC(mbt.TLCOpts{Spec: "IRState", Cfg: "IRState.cfg", Workers: 8, Timeout: 25 * time.Minute,
+			Consts: map[string]string{"MaxCalls": "0", "MaxPerGroup": "1", "MaxParams": "1", "MaxBlocks": "1", "MaxInsts": "2",
+				"InstRes": `{"value", "void"}`, "SetNames": `{""}`, "Observers": `{"PrintModule", "PrintFunc"}`}})
+		if len(t.Violated) > 0 {
+			mbt.Infra("IRState (unbounded history) with ValidateOnPrint = FALSE violates %v: specification error", t.Violated)
+		}
+		rep.AddTLC(t)
+		rep.Extra["tlc_states_closed"] = t.Distinct
+		rep.Extra["tlc_wall_s_closed"] = t.Wall.Seconds()
+		t.Cleanup()
+	}
+
+	rep.Extra["transitions_replayed"] = st.transitions
+	rep.Extra["transitions_with_observer"] = st.withObs
+	rep.Extra["observer_calls_that_panicked_on_incomplete_ir"] = st.obsPanics
+	rep.Extra["unobserved_history_differs_from_required_numbering"] = st.divergences
+	if st.divergences > 0 {
+		rep.Note("%d histories print, without any observer, something else than the numbering IRState requires: judged by C08, not a C14 verdict", st.divergences)
+	}
+	rep.Exhaustive = true
+	rep.Explanation = "every transition of the three IRState configurations of this tier was emitted and replayed (no sampling)"
+	rep.Assumptions = []string{
+		"the replay (harness/props/irhist) maps each IRState action to the public API call it stands for; instructions are add/call/store/fence, terminators ret/br/invoke/callbr/catchswitch with placeholder operands",
+		"Type(), Ident(), Operands(), Succs() are called on every object of the module at the observer's position",
+		"outcomes are compared as the full String() text, or the class of the panic message",
+	}
+	rep.Finish()
+}
+
+func runReplay(rep *mbt.Report, path string, st *stats) {
+	type rf struct {
+		Failures []struct {
+			Case struct {
+				Hist []irhist.Call `json:"hist"`
+				Want irhist.Out    `json:"want"`
+			} `json:"case"`
+		} `json:"failures"`
+	}
+	var one rf
+	if err := mbt.ReadJSON(path, &one); err != nil {
+		mbt.Infra("replay %s: %v", path, err)
+	}
+	for _, f := range one.Failures {
+		if len(f.Case.Hist) == 0 {
+			continue
+		}
+		judge(rep, irhist.Transition{Hist: f.Case.Hist, Want: f.Case.Want}, st, "replay")
+		rep.TracesValidated++
+	}
+	_ = os.Stdout
+}
